@@ -7,7 +7,6 @@ use checks::pq::{pq_profile_basic, PqCfg, PqFmt};
 use checks::text::{csv_profile, json_profile, CsvFmt, JsonFmt};
 use checks::gen_workload;
 use simcore::{Ctx, Scenario, R};
-use std::sync::Mutex;
 
 #[global_allocator]
 static A: simcore::alloc::CapAlloc = simcore::alloc::CapAlloc;
@@ -41,11 +40,19 @@ fn ipc_file(ctx: &Ctx) -> R {
 fn ipc_stream(ctx: &Ctx) -> R {
     ipc(ctx, false)
 }
-fn csv(ctx: &Ctx) -> R {
+fn csv_with(ctx: &Ctx, into_inner: bool) -> R {
     let p = csv_profile(ctx);
     let wl = gen_workload(ctx, &p, 3, 12, true);
     let cfg = CsvFmt::gen_cfg(ctx);
-    run_all(ctx, &CsvFmt { wl, cfg })
+    run_all(ctx, &CsvFmt { wl, cfg, into_inner })
+}
+fn csv(ctx: &Ctx) -> R {
+    csv_with(ctx, false)
+}
+/// Same workloads, but the caller recovers the sink with `Writer::into_inner` (kept apart so that the
+/// known panic of that call does not end every CSV run at its first sink fault).
+fn csv_into_inner(ctx: &Ctx) -> R {
+    csv_with(ctx, true)
 }
 fn json(ctx: &Ctx) -> R {
     let p = json_profile(ctx);
@@ -57,7 +64,7 @@ fn avro(ctx: &Ctx, ocf: bool) -> R {
     let p = avro_profile(ctx);
     let wl = gen_workload(ctx, &p, 3, 10, true);
     let cfg = AvroFmt::gen_cfg(ctx, ocf);
-    run_all(ctx, &AvroFmt { wl, cfg, marker: Mutex::new(None) })
+    run_all(ctx, &AvroFmt::new(wl, cfg))
 }
 fn avro_ocf(ctx: &Ctx) -> R {
     avro(ctx, true)
@@ -80,6 +87,7 @@ fn main() {
             Scenario { name: "ipc_file", runs_quick: 250, runs_thorough: 6000, f: ipc_file },
             Scenario { name: "ipc_stream", runs_quick: 250, runs_thorough: 6000, f: ipc_stream },
             Scenario { name: "csv", runs_quick: 250, runs_thorough: 6000, f: csv },
+            Scenario { name: "csv_into_inner", runs_quick: 60, runs_thorough: 600, f: csv_into_inner },
             Scenario { name: "json", runs_quick: 250, runs_thorough: 6000, f: json },
             Scenario { name: "avro_ocf", runs_quick: 250, runs_thorough: 6000, f: avro_ocf },
             Scenario { name: "avro_soe", runs_quick: 150, runs_thorough: 3000, f: avro_soe },
